@@ -37,6 +37,16 @@ impl Default for St {
     }
 }
 
+/// distance to the previous instantiated capacity (so that every length up to 64 selects exactly one)
+#[allow(non_snake_case)]
+const fn GAP(n: usize) -> usize {
+    match n {
+        32 => 8,
+        48 | 64 => 16,
+        _ => 1,
+    }
+}
+
 /// Formats `v` with the real code into the writers and checks the bytes.
 fn check_value<T: Response + ?Sized>(st: &mut St, v: &T, val: &Val, label: &str, replay: J, sort: &[u8]) {
     st.values += 1;
@@ -57,13 +67,25 @@ fn check_value<T: Response + ?Sized>(st: &mut St, v: &T, val: &Val, label: &str,
         st.formats += 1;
         if !matches!(r2, Ok(Ok(()))) || hw[..] != b[..] {
             problem = Some(("heapless-writer-differs".into(), format!("heapless::Vec<u8,4096>: {:?} \"{}\"", r2, show(&hw))));
-        } else if b.len() <= 16 {
-            let mut h16: heapless::Vec<u8, 16> = heapless::Vec::new();
-            let r3 = block_on(v.write_response(&mut h16));
-            st.formats += 1;
-            if !matches!(r3, Ok(Ok(()))) || h16[..] != b[..] {
-                problem = Some(("heapless-writer-differs".into(), format!("heapless::Vec<u8,16>: {:?} \"{}\"", r3, show(&h16))));
+        } else {
+            // a writer that has exactly room for the response: heapless::Vec<u8, L> with L = |b|
+            // (for the lengths instantiated below) or the next instantiated capacity
+            macro_rules! exact {
+                ($($n:literal)*) => {
+                    match b.len() {
+                        $( l if l <= $n && l + GAP($n) > $n => {
+                            let mut hx: heapless::Vec<u8, $n> = heapless::Vec::new();
+                            let r3 = block_on(v.write_response(&mut hx));
+                            st.formats += 1;
+                            if !matches!(r3, Ok(Ok(()))) || hx[..] != b[..] {
+                                problem = Some(("heapless-writer-with-just-enough-room-differs".into(), format!("heapless::Vec<u8,{}> for a {}-byte response: {:?} \"{}\"", $n, l, r3, show(&hx))));
+                            }
+                        } )*
+                        _ => {}
+                    }
+                };
             }
+            exact!(1 2 3 4 5 6 7 8 9 10 11 12 13 14 15 16 17 18 19 20 21 22 23 24 32 48 64);
         }
         if problem.is_none() {
             let mut rw = RecW::unbounded();
@@ -560,7 +582,7 @@ fn main() {
                "strings": {"alphabet": STR_ALPHA.iter().map(|s| show(s.as_bytes())).collect::<Vec<_>>(), "max_len": if thorough { 5 } else { 4 }, "count": strs.len(), "types": ["&str", "heapless::String<32>"]},
                "blocks": "lengths 0,1,9,10,99,100,999,1000 with every byte value first and last; all 65536 two-byte blocks; Characters",
                "composites": "tuples of arity 2..4, nested tuples, slices and heapless::Vec of length 0..3 over integer / string / float / tuple elements, Error, ()",
-               "writers": ["pass-through buffer", "heapless::Vec<u8,4096>", "heapless::Vec<u8,16> when the response fits", "recording writer"],
+               "writers": ["pass-through buffer", "heapless::Vec<u8,4096>", "heapless::Vec<u8,L> with exactly |response| = L for L <= 24 (and 32/48/64 for longer ones)", "recording writer"],
                "run": {"units": us.iter().map(|u| u.text).collect::<Vec<_>>(), "messages": "all sequences of <=3 units"}}),
     );
     out.cov("samples", json!(["f32 0x3dcccccd -> \"0.1\"", "&str \"a\\\"b\" -> must be \"a\"\"b\" in quotes", "Arbitrary(1000 bytes) -> #41000...", ":TUP?;:FAIL?;:BLK?\\n"]));
